@@ -92,7 +92,13 @@ def _w(obj, attr, idx, val):
     a[idx] = val
 
 
+FAR = [False]      # when set, new sample values are of ordinary magnitude (1 .. 1e6): far beyond any comparison tolerance from
+                   # each other and from the special values (0, denormals) the generators like
+
+
 def _fin(rng):
+    if FAR[0]:
+        return np.float32(rng.choice([-1, 1]) * rng.uniform(1.0, 1e6))
     return A.f32([A.gen_f32(rng, finite=True)])[0]
 
 
@@ -199,7 +205,7 @@ def apply_edit(kind, obj, rng):
             if r < 0.3:
                 _w(c.view_port, rng.choice(["origin", "size"]), rng.randrange(2), A.gen_i32(rng))
                 return "camera viewport component poked"
-            _w(c, rng.choice(["focus", "optical_center", "translation_vector"]), 0, float(A.f64([A.gen_f64(rng)])[0]))
+            _w(c, rng.choice(["focus", "optical_center", "translation_vector"]), 0, float(_fin(rng)) if FAR[0] else float(A.f64([A.gen_f64(rng)])[0]))
             return "camera parameter poked"
         _w(obj, "calibration_volume_size", rng.randrange(3), _fin(rng))
         return "calibration volume poked"
